@@ -10,12 +10,18 @@ def run(c):
               "unresolvable and malformed queries; tidy; upgrade-all; build list) applied to root requirement sets of 0-5 "
               "names incl. two names for one path and names that collide with the ones `get` would choose; each edit is run "
               "three times for determinism, re-resolved with BuildList, and repeated on its own result; every Get / Tidy / "
-              "UpgradeAll runs under a 5 s watchdog. Non-trivial = at least one operation of the sequence succeeds."),
+              "UpgradeAll runs under a 5 s watchdog. Universes as for C10 incl. pseudo-version requirements, non-canonical path "
+              "spellings, legacy .dawnconfig files and tags that are not canonical versions (look-alikes of tagged versions and "
+              "short-form / build-metadata tags newer than every canonical one — not part of the universe). Fault injection, two "
+              "scenarios per edit out of {dial, tag listing, fetch} x {fails once at the n-th call, down for the whole edit} x "
+              "{cold, warm module cache}. Non-trivial = at least one operation of the sequence succeeds."),
         judge_note="tidy: build list unchanged; get as add/upgrade/no-op: new build list has the project at >= the resolved "
                    "version (above only if the resolved version itself requires it) and lowers/removes nothing; get as "
                    "downgrade: project absent or <= resolved; upgrade-all: nothing lowered, every project >= its newest "
                    "release tag of the same major; names of surviving projects unchanged, one fresh name per new project; "
-                   "op(op c) == op c; no hang, no panic; result independent of map order (3 runs)")
+                   "op(op c) == op c; no hang, no panic; result independent of map order (3 runs); the result written as "
+                   "dawn.toml loads again; under an injected fault an edit returns an error or exactly its fault-free result and "
+                   "leaves its input alone, and after the fault clears the same and a fresh resolver give the fault-free result")
 
 
 def replay(c, case):
